@@ -17,7 +17,8 @@
    for both readers, with the two classes excluded through [ops_ok] when fx = false. *)
 From Coq Require Import List NArith Bool.
 From NV Require Import Bgzf.Vpos Bgzf.VposProofs Bgzf.Gzi Bgzf.ReaderOps Bgzf.FlatRef Bgzf.ReaderOpsProofs
-  Bgzf.ReaderTellProofs.
+  Bgzf.ReaderTellProofs Bgzf.WriterTell.
+From NV Require Bgzf.Frame Bgzf.Writer Bgzf.WriterTellProofs.
 Import ListNotations.
 Open Scope N_scope.
 
@@ -134,6 +135,42 @@ Theorem c02_seek_then_read_to_end : forall f ops v i n,
              denote f ve = Some (total_dlen f).
 Proof. exact seek_then_read_to_end. Qed.
 Print Assumptions c02_seek_then_read_to_end.
+
+(* WRITER SIDE.  The writer is C01's model NV.Bgzf.Writer (write / write_all / flush / try_finish
+   over a sink that accepts every byte; DEFLATE is a parameter, the only premise being that
+   level 0 expands a staging buffer by at most 15 bytes, as in C01).  Split ANY script at ANY
+   point into ops1 ++ ops2: the position told after ops1 (= just before the byte with flat index
+   |accepted ops1| is written) names that byte in the finished file: F is the frame table of the
+   final sink (BSIZE+1 and ISIZE per frame, ending = finish() or flush()+into_inner()); a fresh
+   reader model sought there succeeds and reads to the end exactly D from that byte on.  No call
+   of the script panics or fails. *)
+Theorem c02_writer_tell : forall (deflate : N -> list N -> list N) (lvl : N),
+  (forall x, Frame.lenN x <= Writer.MAX_BUF_SIZE ->
+             Frame.lenN (deflate 0 x) <= Writer.MAX_COMPRESSED_SIZE) ->
+  forall ops1 ops2 fin n st1 obs1 p1 st2 obs2 p2,
+  Writer.run_ops deflate lvl Writer.w_init ops1 = (st1, obs1, p1) ->
+  Writer.run_ops deflate lvl st1 ops2 = (st2, obs2, p2) ->
+  let stf := wt_finish deflate lvl fin st2 in
+  let D := Writer.accepted ops1 obs1 ++ Writer.accepted ops2 obs2 in
+  let F := sink_file (S (length (Writer.w_sink stf))) (Writer.w_sink stf) D in
+  Frame.lenN (Writer.w_sink stf) <= Writer.MAX_COMPRESSED_POSITION -> 0 < n ->
+  p1 = false /\ p2 = false /\
+  exists v, Writer.virtual_position st1 = Frame.Ok v /\
+    snd (seek true F (init F) v) = Ok v /\
+    snd (read_all true (fst (seek true F (init F) v)) n)
+      = Ok (skipn (length (Writer.accepted ops1 obs1)) D).
+Proof. exact WriterTellProofs.writer_tell. Qed.
+Print Assumptions c02_writer_tell.
+
+(* non-vacuity: with the identity as DEFLATE (it satisfies the premise) a script, its told
+   positions, and what a fresh reader reads to the end from each *)
+Example c02_example_writer_tell :
+  wtell_run (fun _ x => x) 6 [Writer.OWrite [1; 2; 3]; Writer.OFlush; Writer.OWriteAll [4; 5]] true 70000
+  = [ (Frame.Ok (pack 0 0), Ok (pack 0 0), Ok [1; 2; 3; 4; 5]);
+      (Frame.Ok (pack 0 3), Ok (pack 0 3), Ok [4; 5]);
+      (Frame.Ok (pack 29 0), Ok (pack 29 0), Ok [4; 5]);
+      (Frame.Ok (pack 29 2), Ok (pack 29 2), Ok []) ].
+Proof. vm_compute. reflexivity. Qed.
 
 (* a single read after a seek hands out a prefix of the stream from exactly the named byte *)
 Theorem c02_seek_then_read : forall f s v j s1 x n,
